@@ -150,3 +150,139 @@ def checkUP (op : String) (args res : List String) : Verdict :=
   | _ => .skip "short up line"
 
 end LP.Driver
+
+namespace LP.Driver
+open LP
+
+/-- exists k ≤ kmax with lc^k * A = D*B + R -/
+def findPseudoK (K : Ring) (x : Nat) (A B D R : MPoly) (kmax : Nat) : Option Nat :=
+  (List.range (kmax + 1)).find? (fun k => MPoly.checkReduceIdentity K (MPoly.pow K (MPoly.lcIn K x B) k) A D B R)
+
+def degOk (x : Nat) (B R : MPoly) : Bool :=
+  R.isEmpty || MPoly.degreeIn x R < MPoly.degreeIn x B || MPoly.degreeIn x R = 0
+
+def checkDiv (op : String) (args res : List String) : Verdict :=
+  match args with
+  | [rs, xs, a, b] =>
+    (match pRing? rs, pInt? xs, pPolyRaw? a, pPolyRaw? b with
+     | some (K, prime), some xi, some ra, some rb =>
+       if !(rawCanonical K ra && rawCanonical K rb) then .viol "poly-canon" "operand not canonical" else
+       let A := MPoly.normalize K ra
+       let B := MPoly.normalize K rb
+       let x := xi.toNat
+       let dA := MPoly.degreeIn x A
+       let dB := MPoly.degreeIn x B
+       let kmax := if dA ≥ dB then dA - dB + 1 else 0
+       let tag := s!"{op}/{ringTag K prime}/{if dB = 0 then "B-const-in-x" else if dA < dB then "dA<dB" else if dA - dB ≥ 2 then "gap" else "near"}"
+       let R? (s : String) : Option MPoly := match pPolyRaw? s with
+         | some raw => if rawCanonical K raw then some (MPoly.normalize K raw) else none
+         | none => none
+       match op, res with
+       | "div", [d] => (match R? d with
+           | some D => if MPoly.mul K D B = A then .ok tag else .viol "div-exact" s!"D*B ≠ A: D={showPoly D}"
+           | none => .viol "poly-canon" "result not canonical")
+       | "rem", [r] => (match R? r with
+           | some R =>
+             (match MPoly.divExact? K prime (MPoly.sub K A R) B with
+              | some _ => if degOk x B R then .ok tag else .viol "div-degree" s!"deg_x R not below deg_x B: R={showPoly R}"
+              | none => .viol "div-rem" s!"A - R is not a multiple of B: R={showPoly R}")
+           | none => .viol "poly-canon" "result not canonical")
+       | "divrem", [d, r] => (match R? d, R? r with
+           | some D, some R =>
+             if !(MPoly.checkReduceIdentity K (MPoly.const K 1) A D B R) then .viol "div-divrem" s!"A ≠ D*B + R: D={showPoly D} R={showPoly R}"
+             else if !degOk x B R then .viol "div-degree" s!"deg_x R not below deg_x B: R={showPoly R}"
+             else .ok tag
+           | _, _ => .viol "poly-canon" "result not canonical")
+       | "prem", [r] => (match R? r with
+           | some R =>
+             let hit := (List.range (kmax + 1)).find? (fun k =>
+               (MPoly.divExact? K prime (MPoly.sub K (MPoly.mul K (MPoly.pow K (MPoly.lcIn K x B) k) A) R) B).isSome)
+             (match hit with
+              | some k => if degOk x B R then .ok (tag ++ (if k = kmax then "/k=max" else "/k<max")) else .viol "div-degree" s!"deg_x R not below deg_x B: R={showPoly R}"
+              | none => .viol "div-prem" s!"no k ≤ {kmax} with lc(B)^k*A - R a multiple of B: R={showPoly R}")
+           | none => .viol "poly-canon" "result not canonical")
+       | "sprem", [r] => (match R? r with
+           | some R =>
+             let hit := (List.range (kmax + 1)).find? (fun k =>
+               (MPoly.divExact? K prime (MPoly.sub K (MPoly.mul K (MPoly.pow K (MPoly.lcIn K x B) k) A) R) B).isSome)
+             (match hit with
+              | some _ => if degOk x B R then .ok tag else .viol "div-degree" s!"deg_x R not below deg_x B: R={showPoly R}"
+              | none => .viol "div-sprem" s!"no k ≤ {kmax} with lc(B)^k*A - R a multiple of B: R={showPoly R}")
+           | none => .viol "poly-canon" "result not canonical")
+       | "pdivrem", [d, r] => (match R? d, R? r with
+           | some D, some R =>
+             (match findPseudoK K x A B D R kmax with
+              | some k => if degOk x B R then .ok (tag ++ (if k = kmax then "/k=max" else "/k<max")) else .viol "div-degree" s!"deg_x R not below deg_x B: R={showPoly R}"
+              | none => .viol "div-pdivrem" s!"no k ≤ {kmax} with lc(B)^k*A = D*B + R: D={showPoly D} R={showPoly R}")
+           | _, _ => .viol "poly-canon" "result not canonical")
+       | "spdivrem", [d, r] => (match R? d, R? r with
+           | some D, some R =>
+             (match findPseudoK K x A B D R kmax with
+              | some _ => if degOk x B R then .ok tag else .viol "div-degree" s!"deg_x R not below deg_x B: R={showPoly R}"
+              | none => .viol "div-spdivrem" s!"no k ≤ {kmax} with lc(B)^k*A = D*B + R: D={showPoly D} R={showPoly R}")
+           | _, _ => .viol "poly-canon" "result not canonical")
+       | "reduce", [p, q, r] => (match R? p, R? q, R? r with
+           | some P, some Q, some R =>
+             if !(MPoly.checkReduceIdentity K P A Q B R) then .viol "div-reduce" s!"P*A ≠ Q*B + R: P={showPoly P} Q={showPoly Q} R={showPoly R}"
+             else if (MPoly.vars P).contains x then .viol "div-reduce-P" s!"P contains the main variable: P={showPoly P}"
+             else if !degOk x B R then .viol "div-degree" s!"deg_x R not below deg_x B: R={showPoly R}"
+             else if !(MPoly.isLcPower K x B P kmax) then .viol "div-dense-power" s!"dense reduction: P={showPoly P} is not lc(B)^{kmax}"
+             else .ok tag
+           | _, _, _ => .viol "poly-canon" "result not canonical")
+       | "divides", [r] =>
+           (match K with
+            | some _ => if !prime then .skip "divides in composite ring" else
+                let want := (MPoly.divExact? K prime A B).isSome
+                if (r ≠ "0") = want then .ok (tag ++ s!"/{want}") else .viol "div-divides" s!"got {r}, a quotient {if want then "exists" else "does not exist"}"
+            | none =>
+                let want := (MPoly.divExact? K prime A B).isSome
+                if (r ≠ "0") = want then .ok (tag ++ s!"/{want}") else .viol "div-divides" s!"got {r}, a quotient {if want then "exists" else "does not exist"}")
+       | _, _ => .skip s!"unknown div op {op}"
+     | _, _, _, _ => .skip "bad div line")
+  | _ => .skip "div arity"
+
+def checkUDiv (op : String) (args res : List String) : Verdict :=
+  match args with
+  | [rs, a, b] =>
+    (match pRing? rs, pUPoly? a, pUPoly? b with
+     | some (K, prime), some ca, some cb =>
+       if !(upCanonical K ca && upCanonical K cb) then .viol "up-canon" "operand not canonical" else
+       let A := upolyToMPoly K 0 ca
+       let B := upolyToMPoly K 0 cb
+       let dA := MPoly.degreeIn 0 A
+       let dB := MPoly.degreeIn 0 B
+       let tag := s!"{op}/{ringTag K prime}"
+       let U? (s : String) : Option MPoly := match pUPoly? s with
+         | some cs => if upCanonical K cs then some (upolyToMPoly K 0 cs) else none
+         | none => none
+       let degR (R : MPoly) : Bool := R.isEmpty || MPoly.degreeIn 0 R < dB
+       match op, res with
+       | "divexact", [d] => (match U? d with
+           | some D => if MPoly.mul K D B = A then .ok tag else .viol "udiv-exact" s!"D*B ≠ A"
+           | none => .viol "up-canon" "result not canonical")
+       | "divrem", [d, r] => (match U? d, U? r with
+           | some D, some R =>
+             if !(MPoly.checkReduceIdentity K (MPoly.const K 1) A D B R) then .viol "udiv-divrem" "A ≠ D*B + R"
+             else if !degR R then .viol "udiv-degree" "deg R not below deg B" else .ok tag
+           | _, _ => .viol "up-canon" "result not canonical")
+       | "rem", [r] => (match U? r with
+           | some R =>
+             (match MPoly.divExact? K prime (MPoly.sub K A R) B with
+              | some _ => if degR R then .ok tag else .viol "udiv-degree" "deg R not below deg B"
+              | none => .viol "udiv-rem" "A - R is not a multiple of B")
+           | none => .viol "up-canon" "result not canonical")
+       | "pseudo", [d, r] => (match U? d, U? r with
+           | some D, some R =>
+             let k := dA - dB + 1
+             if !(MPoly.checkReduceIdentity K (MPoly.pow K (MPoly.lcIn K 0 B) k) A D B R) then .viol "udiv-pseudo" s!"lc(q)^{k}*p ≠ div*q + rem"
+             else if !degR R then .viol "udiv-degree" "deg rem not below deg q" else .ok tag
+           | _, _ => .viol "up-canon" "result not canonical")
+       | "divides", [r] =>
+           if K.isSome && !prime then .skip "divides in composite ring" else
+           let want := (MPoly.divExact? K prime A B).isSome
+           if (r ≠ "0") = want then .ok (tag ++ s!"/{want}") else .viol "udiv-divides" s!"got {r}, a quotient {if want then "exists" else "does not exist"}"
+       | _, _ => .skip s!"unknown udiv op {op}"
+     | _, _, _ => .skip "bad udiv line")
+  | _ => .skip "udiv arity"
+
+end LP.Driver
